@@ -7,6 +7,7 @@ documented grammar (non-empty sequence of <digits><unit> items, every number / p
 64 bits, value = Σ number·unit), so the judge is the grammar, not the implementation.
 -/
 import AcmedVerif.Model.Period
+import AcmedVerif.Model.Limiter
 
 namespace AcmedVerif.Spec.C19
 open AcmedVerif.Period
@@ -27,6 +28,38 @@ def StartOutcome.ofString : String → StartOutcome
 def startupHolds : StartOutcome → Bool
   | .starts | .startsAfterLimiterSleep | .rejected => true
   | _ => false
+
+/-- What was observed of one start-up (+ first request per endpoint), before any interpretation. -/
+structure StartObs where
+  /-- the process died (signal, abort, stack overflow) -/
+  died : Bool
+  /-- a Rust panic was caught -/
+  panicked : Bool
+  /-- the loader returned an error -/
+  rejected : Bool
+  /-- the configuration loaded and the event loop was built -/
+  loaded : Bool
+  /-- for every endpoint whose first request had NOT been sent when the observation timed out: its
+  rate limits as loaded (n, period in ns) -/
+  late : List (List Limiter.Limit)
+  timeoutMs : Nat
+  deriving Repr, Inhabited
+
+/-- The outcome class of an observation.  A first request that did not happen within the time-out is
+a hang unless the limiter's own first sleep (it sleeps BEFORE its first test, by design: `sleepMs`,
+proved ≤ 1 h and followed by an admission in Props/C09) covers the time-out (200 ms of slack). -/
+def classify (o : StartObs) : StartOutcome :=
+  if o.died then .died
+  else if o.panicked then .panicked
+  else if o.rejected then .rejected
+  else if o.loaded then
+    if o.late.isEmpty then .starts
+    else if o.late.all (fun ls => decide (o.timeoutMs ≤ Limiter.sleepMs ls + 200)) then .startsAfterLimiterSleep
+    else .hung
+  else .unknown
+
+/-- Clause 1 on a raw observation. -/
+def startupObsHolds (o : StartObs) : Bool := startupHolds (classify o)
 
 /-- What the implementation answered for one period string. -/
 inductive PeriodObs
